@@ -4464,17 +4464,24 @@ impl Lexer<'_> {
                 self.push_mode(LexerMode::WsOrCStyleCommentOnly);
             }
             '%' if is_valid_unicode_sas_name_start(self.cursor.peek_next()) => {
-                self.start_token();
-                self.lex_macro_identifier(false);
-
                 // This may be both %do %while/until or %do %mcall_that_creates_iter_var
-                // so we need to fork on the type of the last token. For %while/until
-                // we do nothing because lexer above has already set the mode stack,
-                // for the macro call we do the same as for all other symbols - push the,
-                // name expression mode, except that we know we've found at least the start
-                if self.buffer.last_token_info().is_some_and(|ti| {
-                    ![TokenType::KwmUntil, TokenType::KwmWhile].contains(&ti.token_type)
-                }) {
+                // so we need to fork on the type of the following macro keyword. For %while/until
+                // (or any other statement, which is a coding error) we do nothing because
+                // the statement lexing sets the mode stack itself.
+                // For the macro call we do the same as for all other symbols - push the
+                // name expression mode, except that we know we've found at least the start.
+                //
+                // The modes must be pushed BEFORE the macro call is lexed, because the call
+                // pushes its own modes (and possibly a checkpoint) that must be handled first.
+                // Hence the look-ahead.
+                let mut la_cursor = self.cursor.clone();
+                // Move past the % to the actual identifier
+                la_cursor.advance();
+
+                let is_macro_call = lex_macro_call_stat_or_label(&mut la_cursor)
+                    .map_or(true, |(tok_type, _)| !is_macro_stat_tok_type(tok_type.into()));
+
+                if is_macro_call {
                     self.push_mode(LexerMode::MacroEval {
                         macro_eval_flags: MacroEvalExprFlags::new(
                             MacroEvalNumericMode::Integer,
@@ -4491,10 +4498,14 @@ impl Lexer<'_> {
                         TokenChannel::DEFAULT,
                     ));
                     self.push_mode(LexerMode::WsOrCStyleCommentOnly);
-                    // Note the difference from below. We already lexed one part of the var name expr,
-                    // so we pass `true` and do not pass error, since it won't ever be emitted anyway
+                    // Note the difference from below. We know that one part of the var name expr
+                    // follows, so we pass `true` and do not pass error, since it won't ever be
+                    // emitted anyway
                     self.push_mode(LexerMode::MacroNameExpr(true, None));
                 }
+
+                self.start_token();
+                self.lex_macro_identifier(false);
             }
             _ => {
                 // %do var=...; A mix of %let and %if expression
